@@ -89,6 +89,10 @@ EXT_CLASS_METHODS = {
     "object": {},
 }
 BUILTINS = set(dir(__import__("builtins")))
+DIMKIND = {
+    NP: {0: "instances", -3: "instances", 1: "columns", -2: "columns", 2: "time", -1: "time"},
+    PD: {0: "instances", -2: "instances", 1: "columns", -1: "columns"},
+}
 DELAYED = {"joblib.delayed", "joblib.parallel.delayed", "sklearn.utils.fixes.delayed"}
 
 
@@ -99,6 +103,8 @@ class Summary:
         self.ret = None  # frozenset of containers of the returned panel, or None
         self.returns = True  # a normal return is reachable
         self.used = False  # the tracked value was used at all
+        self.retdim = None  # frozenset of dimension values returned (R3), None = unknown
+        self.stores = {}  # self attribute -> frozenset of dimension values stored (None = not a known dimension)
 
 
 def _fs(*xs):
@@ -187,7 +193,7 @@ class Analyzer:
     def summary(self, fn, module, cls, defcls, bind, depth=0):
         """Analyse ``fn`` with parameters ``bind`` = {param: frozenset(containers)} holding the panel."""
         key = (id(fn), cls.qual if isinstance(cls, ClassInfo) else None,
-               tuple(sorted((p, tuple(sorted(s))) for p, s in bind.items())))
+               tuple(sorted((p, tuple(sorted(map(repr, s)))) for p, s in bind.items())))
         if key in self.memo:
             return self.memo[key]
         s = Summary()
@@ -272,13 +278,53 @@ class _FnRun:
             self.transfer(n, env)
             if n.kind == "return" and n.stmt.value is not None:
                 rets.append(self.eval_value(n.stmt.value, env))
+            if n.kind == "stmt" and isinstance(n.stmt, ast.Assign):
+                self.record_stores(n.stmt, env)
         self.out.returns = IN[g.exit.id] is not None
         ret = set()
+        dims, dims_known = set(), bool(rets)
         for r in rets:
             if r:
-                ret |= set(r)
-        ret.discard(U)
+                ret |= set(c for c in r if c in (NP, PD))
+            if r and all(isinstance(c, tuple) for c in r):
+                dims |= set(r)
+            else:
+                dims_known = False
         self.out.ret = frozenset(ret) if ret else None
+        self.out.retdim = frozenset(dims) if dims_known and dims else None
+
+    def record_stores(self, st, env):
+        """self.<attr> = <dimension value>  (also through tuple unpacking of the panel's shape)."""
+        def put(attr, d):
+            known = d is not None and all(isinstance(c, tuple) for c in d)
+            if attr in self.out.stores and self.out.stores[attr] is None:
+                return
+            if not known:
+                self.out.stores[attr] = None
+            else:
+                self.out.stores[attr] = frozenset(self.out.stores.get(attr, frozenset()) | d)
+
+        for t in st.targets:
+            if astq.is_self_attr(t):
+                put(t.attr, self.eval_value(st.value, env))
+            elif isinstance(t, (ast.Tuple, ast.List)):
+                parts = self.shape_unpack(t, st.value, env)
+                for e, d in zip(t.elts, parts or [None] * len(t.elts)):
+                    if astq.is_self_attr(e):
+                        put(e.attr, d)
+
+    def shape_unpack(self, t, value, env):
+        """Dimension values of `a, b, c = panel.shape` per target position (None when not applicable)."""
+        if not (isinstance(value, ast.Attribute) and value.attr == "shape" and isinstance(value.value, ast.Name)):
+            return None
+        s = env.get(value.value.id)
+        if not s or len(s) != 1:
+            return None
+        (c,) = tuple(s)
+        n = len(t.elts)
+        if (c == NP and n == 3) or (c == PD and n == 2):
+            return [_fs(("dim", DIMKIND[c][i])) for i in range(n)]
+        return None
 
     def loc(self, node):
         return "%s:%s" % (self.module.relpath, getattr(node, "lineno", "?"))
@@ -379,6 +425,10 @@ class _FnRun:
             elif isinstance(value, (ast.Tuple, ast.List)) and len(value.elts) == len(t.elts):
                 for te, ve in zip(t.elts, value.elts):
                     self.bind_target(te, ve, env, out)
+            elif self.shape_unpack(t, value, env):
+                for te, d in zip(t.elts, self.shape_unpack(t, value, env)):
+                    if isinstance(te, ast.Name):
+                        out[te.id] = d
             else:
                 for nm in _target_names(t):
                     out.pop(nm, None)
@@ -452,7 +502,72 @@ class _FnRun:
                         sm = self.an.summary(fn, module, cls, defcls, bind, self.depth + 1)
                         if sm.ret:
                             ret |= set(sm.ret)
-                    return frozenset(ret) or None
+                    if ret:
+                        return frozenset(ret)
+        return self.dim_value(e, env)
+
+    # ------------------------------------------------------------------ dimensions (R3)
+    def dim_value(self, e, env):
+        """Which axis of the panel a scalar / index denotes: {('dim', kind)} / {('index', kind)} / {('cell',)}."""
+        def one(name):
+            s = env.get(name)
+            if not s or len(s) != 1:
+                return None
+            return next(iter(s))
+
+        if isinstance(e, ast.Subscript) and isinstance(e.value, ast.Attribute) and isinstance(e.value.value, ast.Name):
+            a, base = e.value.attr, one(e.value.value.id)
+            if a == "shape" and base is not None:
+                k = e.slice
+                kv = k.value if isinstance(k, ast.Constant) else (
+                    -k.operand.value if isinstance(k, ast.UnaryOp) and isinstance(k.op, ast.USub)
+                    and isinstance(k.operand, ast.Constant) else None)
+                if isinstance(kv, int) and not isinstance(kv, bool):
+                    if base in (NP, PD) and kv in DIMKIND[base]:
+                        return _fs(("dim", DIMKIND[base][kv]))
+                    if base == ("cell",) and kv in (0, -1):
+                        return _fs(("dim", "time"))
+                return None
+            if a == "iloc" and base == PD and isinstance(e.slice, ast.Tuple) and len(e.slice.elts) == 2 \
+                    and not any(isinstance(x, ast.Slice) for x in e.slice.elts):
+                return _fs(("cell",))
+            return None
+        if isinstance(e, ast.Attribute) and isinstance(e.value, ast.Name):
+            base = one(e.value.id)
+            if e.attr == "index" and base == PD:
+                return _fs(("index", "instances"))
+            if e.attr == "columns" and base == PD:
+                return _fs(("index", "columns"))
+            if e.attr == "index" and base == ("cell",):
+                return _fs(("index", "time"))
+            return None
+        if isinstance(e, ast.Call):
+            r = self.resolve(e)
+            if r[0] == "ext":
+                ext = r[1]
+                if ext in ("builtins.len",) and len(e.args) == 1 and isinstance(e.args[0], ast.Name):
+                    base = one(e.args[0].id)
+                    if base in (NP, PD):
+                        return _fs(("dim", "instances"))
+                    if base == ("cell",):
+                        return _fs(("dim", "time"))
+                    return None
+                if ext in ("pandas.RangeIndex", "numpy.arange", "builtins.range") and len(e.args) == 1 and not e.keywords:
+                    d = self.eval_value(e.args[0], env)
+                    if d and all(isinstance(c, tuple) and c[0] == "dim" for c in d):
+                        return frozenset(("index", c[1]) for c in d)
+                return None
+            if r[0] == "repo":
+                _, fn, module, cls, defcls, skip_self, call = r
+                tracked = self.tracked_args(fn, call, skip_self, env)
+                if tracked:
+                    out = set()
+                    for bind in _singletons(tracked):
+                        sm = self.an.summary(fn, module, cls, defcls, bind, self.depth + 1)
+                        if sm.retdim is None:
+                            return None
+                        out |= set(sm.retdim)
+                    return frozenset(out) or None
         return None
 
     def flags(self, b, call):
@@ -557,7 +672,7 @@ class _FnRun:
             return None
         for nm in names:
             for c in env[nm]:
-                if c == U:
+                if c == U or isinstance(c, tuple):
                     return None
                 vals.add(self.truth(test, nm, c))
         if len(vals) == 1:
@@ -572,7 +687,7 @@ class _FnRun:
         for nm in names:
             keep = set()
             for c in env[nm]:
-                if c == U:
+                if c == U or isinstance(c, tuple):
                     keep.add(c)
                     continue
                 t = self.truth(test, nm, c)
@@ -631,7 +746,7 @@ class _FnRun:
         return self.parents.get(id(n))
 
     def use(self, name, env, node, raising):
-        states = [c for c in env[name.id] if c != U]
+        states = [c for c in env[name.id] if c in (NP, PD)]
         if not states:
             return
         self.out.used = True
@@ -838,7 +953,7 @@ class _FnRun:
                     self.viol_at("%s>%s" % (qn, k), "%s (reached through %s)" % (what, qn), loc)
                 for k, why, loc in sm.und:
                     self.und_at("%s>%s" % (qn, k), why, loc)
-                if not sm.returns and len(bind) == 1:
+                if not sm.returns and len(bind) == 1 and all(x in (NP, PD) for s0 in bind.values() for x in s0):
                     (p, s), = bind.items()
                     (c,) = tuple(s)
                     other = self.an.summary(fn, module, cls, defcls, {p: _fs(OTHER[c])}, self.depth + 1)
@@ -930,7 +1045,11 @@ def _singletons(tracked):
     items = sorted(tracked.items())
     combos = [{}]
     for p, s in items:
-        cs = [c for c in sorted(s) if c != U]
+        cs = [c for c in sorted(x for x in s if isinstance(x, str)) if c != U]
+        dv = frozenset(x for x in s if isinstance(x, tuple))
+        if dv and not cs and U not in s:
+            combos = [dict(c0, **{p: dv}) for c0 in combos]
+            continue
         if not cs:
             continue
         combos = [dict(c0, **{p: _fs(c)}) for c0 in combos for c in cs]
@@ -958,8 +1077,12 @@ def run(ctx):
                 "two input scenarios '3-d numpy' and 'nested DataFrame' by a forward dataflow over the CFG that follows "
                 "check_X/check_X_y coercion flags (bound parameters), folds isinstance/hasattr branches, follows repo "
                 "helpers, self/super methods, nested functions and joblib.delayed with bound arguments, and classifies every "
-                "other use of the panel with a table of container-specific uses. Equivariance / batch-vs-single equality "
-                "are not decided.")
+                "other use of the panel with a table of container-specific uses. R2 row correspondence: per-position results "
+                "are never stored into a frame that carries another frame's row labels as a fresh-RangeIndex Series (pandas "
+                "label alignment). R3: every axis length / index the dataflow can name (shape[k], len, cell length, RangeIndex "
+                "of them, through helpers) that an entry point stores on self denotes the same axis (instances / columns / "
+                "time) under both input containers. Equivariance / batch-vs-single equality as relations between runs "
+                "(e.g. shared random state across a batch, numeric window arithmetic) are not decided.")
     ctx.assume("a numpy.ndarray has none of the pandas-only attributes of the table and a DataFrame none of the "
                "numpy-only ones; DataFrame[tuple] / DataFrame.shape[2] fail; DataFrame.squeeze(1) is not the 2-d panel")
     ctx.assume("inner estimators receiving the panel through fit/transform/predict/predict_proba normalise it themselves "
@@ -977,6 +1100,7 @@ def run(ctx):
         repo.cls(rel + ":" + cn)
     an = Analyzer(repo)
     n_entry = 0
+    seen_dims = set()
     for cls in anchored_classes(repo):
         for mname in ENTRY:
             hit = an.lookup(cls, mname)
@@ -1024,5 +1148,172 @@ def run(ctx):
                     else:
                         detail += "every use of the panel matches its container on every path"
                     ctx.ok(RULE, construct, detail, loc, nontrivial=sm.used)
+            # R3: a fitted dimension must denote the same axis of the panel for both containers
+            for attr in sorted(set(sums[NP].stores) & set(sums[PD].stores)):
+                a, b = sums[NP].stores[attr], sums[PD].stores[attr]
+                if not a or not b:
+                    continue
+                if (defcls.name, mname, attr) in seen_dims:
+                    continue
+                seen_dims.add((defcls.name, mname, attr))
+                ctx.check(a == b, "R3", "%s.%s:self.%s" % (defcls.name, mname, attr),
+                          "self.%s denotes %s of the panel for both containers" % (attr, _dimshow(a)),
+                          "self.%s denotes %s for a 3-d numpy panel but %s for a nested DataFrame holding the same data: the "
+                          "fitted state depends on the container" % (attr, _dimshow(a), _dimshow(b)), loc,
+                          witness={"numpy": _dimshow(a), "pandas": _dimshow(b)})
     ctx.count("entry_points", n_entry)
     ctx.floor(RULE, 252)  # 126 resolved (class, entry point) pairs x 2 input containers
+    label_alignment(ctx, repo)
+
+
+
+def _dimshow(d):
+    return " / ".join(sorted("%s axis" % c[1] if c[0] == "dim" else ("index over the %s axis" % c[1] if c[0] == "index"
+                                                                    else c[0]) for c in d))
+
+
+# -------------------------------------------------------------------------------------------------- R2
+def label_alignment(ctx, repo):
+    """R2 row correspondence: results computed per instance *position* must not be aligned by *label*.
+    pandas aligns `frame[col] = Series` on the index; a Series built from a list carries a fresh RangeIndex, so storing
+    it into a frame that was created with the row index of another frame (`pd.DataFrame(index=X.index)`) puts the result
+    of position k into the row labelled k.  Every column store into a locally created DataFrame of the anchored panel
+    modules is an instance."""
+    from ..flow import Flow
+    flow = Flow(repo)
+    n = 0
+    for m in repo.non_test_modules():
+        rel = m.relpath
+        d = rel.rsplit("/", 1)[0] + "/"
+        if not (d in ANCHOR_DIRS or rel in ANCHOR_FILES):
+            continue
+        fns = []
+        for nm, node in m.defs.items():
+            if isinstance(node, ast.FunctionDef):
+                fns.append((nm, node))
+            elif isinstance(node, ast.ClassDef):
+                for st in node.body:
+                    if isinstance(st, ast.FunctionDef):
+                        fns.append(("%s.%s" % (nm, st.name), st))
+        for qn, fn in fns:
+            stored = {x.id for x in astq.walk_no_nested(fn) if isinstance(x, ast.Name) and isinstance(x.ctx, ast.Store)}
+            stored |= set(astq.all_param_names(fn))
+
+            def ext(e):
+                dd = dotted(e)
+                if not dd or dd.split(".")[0] in stored:
+                    return None
+                sym = repo.resolve_dotted(m, dd)
+                return sym.dotted if sym is not None else None
+
+            def self_method(name, _qn=qn):
+                if "." not in _qn:
+                    return None
+                k = repo.classes.get(m.name + ":" + _qn.split(".")[0])
+                hit = repo.lookup_method(k, name) if k is not None else None
+                return hit[1] if hit else None
+
+            frames = {}  # name -> list of (kind, index expr, assign stmt)
+            for a in astq.walk_no_nested(fn):
+                if isinstance(a, ast.Assign) and len(a.targets) == 1 and isinstance(a.targets[0], ast.Name) \
+                        and isinstance(a.value, ast.Call) and ext(a.value.func) == "pandas.DataFrame":
+                    idx = None
+                    for k in a.value.keywords:
+                        if k.arg == "index":
+                            idx = k.value
+                    if idx is None and len(a.value.args) >= 2:
+                        idx = a.value.args[1]
+                    if isinstance(idx, ast.Constant) and idx.value is None:
+                        idx = None
+                    frames.setdefault(a.targets[0].id, []).append((idx, a))
+            if not frames:
+                continue
+            g = None
+            col_stores = [a for a in astq.walk_no_nested(fn)
+                          if isinstance(a, ast.Assign) and len(a.targets) == 1 and isinstance(a.targets[0], ast.Subscript)
+                          and isinstance(a.targets[0].value, ast.Name) and a.targets[0].value.id in frames
+                          and not isinstance(a.targets[0].slice, (ast.Tuple, ast.Slice))]
+            col_stores.sort(key=lambda a: (a.lineno, a.col_offset))
+            for ordinal, a in enumerate(col_stores, 1):
+                fname = a.targets[0].value.id
+                n += 1
+                construct = "%s:column-store#%d" % (qn, ordinal)
+                loc = ctx.loc(m, a)
+                v = a.value
+                # value: positional (list / array) or a Series with a fresh RangeIndex?
+                fresh_series = False
+                positional = False
+                if isinstance(v, ast.Call) and ext(v.func) == "pandas.Series":
+                    has_index = any(k.arg == "index" for k in v.keywords) or len(v.args) >= 2
+                    arg = v.args[0] if v.args else None
+                    label_carrying = isinstance(arg, ast.Call) and ext(arg.func) in ("pandas.Series", "builtins.dict")
+                    label_carrying = label_carrying or isinstance(arg, ast.Dict)
+                    if not has_index and arg is not None and not label_carrying and not _may_be_series(fn, arg, ext, self_method):
+                        fresh_series = True
+                elif isinstance(v, (ast.List, ast.ListComp)) or (isinstance(v, ast.Name) and _is_list_local(fn, v.id)):
+                    positional = True
+                # the frame: created with someone else's row labels?  (constructor index= or a later .index = store
+                # that can precede this column store)
+                label_idx = []
+                for idx, st in frames[fname]:
+                    if idx is not None:
+                        label_idx.append(idx)
+                for b in astq.walk_no_nested(fn):
+                    if isinstance(b, ast.Assign) and any(isinstance(t, ast.Attribute) and t.attr == "index"
+                                                         and isinstance(t.value, ast.Name) and t.value.id == fname
+                                                         for t in b.targets):
+                        g = g or flow.cfg(fn)
+                        nb, na = g.node_of(b), g.node_of(a)
+                        if nb is not None and na is not None and g.may_reach_after(nb, lambda x: x is na):
+                            label_idx.append(b.value)
+                foreign = [i for i in label_idx if isinstance(i, ast.Attribute) and i.attr == "index"]
+                ranges = [i for i in label_idx if isinstance(i, ast.Call) and ext(i.func) in (
+                    "builtins.range", "numpy.arange", "pandas.RangeIndex")]
+                if positional or not label_idx:
+                    ctx.ok("R2", construct, "positional value / frame without row labels of its own", loc, nontrivial=bool(label_idx))
+                elif fresh_series and foreign:
+                    ctx.violation("R2", construct, "the frame carries the row labels %s but the column is stored as %s, a Series "
+                                  "with a fresh RangeIndex: pandas aligns on labels, so the result of the instance at position k "
+                                  "lands in the row labelled k (wrong instance / NaN for any non-default row index)" % (
+                                      astq.canon(foreign[0]), astq.canon(v)[:60]), loc,
+                                  witness={"input": "nested DataFrame with permuted or sub-selected row index, e.g. X.iloc[[2, 0, 1]]"})
+                elif fresh_series and len(ranges) == len(label_idx):
+                    ctx.ok("R2", construct, "frame index is a default range", loc)
+                elif fresh_series:
+                    ctx.undecided("R2", construct, "frame index %s vs. fresh-index Series not interpretable" % astq.canon(label_idx[0])[:50], loc)
+                else:
+                    ctx.ok("R2", construct, "value keeps its own labels / is not a fresh-index Series", loc, nontrivial=False)
+    ctx.floor("R2", 10)
+    ctx.floor("R3", 13)
+
+
+def _is_list_local(fn, name):
+    vals = astq.assigned_values(fn, name)
+    return bool(vals) and all(isinstance(v, (ast.List, ast.ListComp)) for v in vals)
+
+
+def _may_be_series(fn, arg, ext, self_method=None):
+    """Could the argument of pd.Series(arg) itself carry labels (Series / dict)?"""
+    if isinstance(arg, ast.Name):
+        vals = astq.assigned_values(fn, arg.id)
+        if not vals:
+            return True  # parameter / loop variable: unknown
+        for v in vals:
+            if isinstance(v, (ast.List, ast.ListComp, ast.Tuple)):
+                continue
+            if isinstance(v, ast.Call) and ext(v.func) in ("numpy.array", "numpy.asarray", "numpy.zeros", "numpy.hstack",
+                                                           "builtins.list"):
+                continue
+            if isinstance(v, ast.Call) and isinstance(v.func, ast.Attribute) and isinstance(v.func.value, ast.Name) \
+                    and v.func.value.id == "self" and self_method is not None:
+                callee = self_method(v.func.attr)
+                rets = astq.returns(callee) if callee is not None else []
+                if rets and all(isinstance(r.value, (ast.List, ast.ListComp)) for r in rets):
+                    continue  # helper returns a plain list of per-position results
+            return True
+        return False
+    if isinstance(arg, (ast.List, ast.ListComp, ast.Tuple)):
+        return False
+    if isinstance(arg, ast.Attribute) and isinstance(arg.value, ast.Name) and arg.value.id == "self":
+        return False
+    return True
